@@ -59,9 +59,13 @@ func IsComplexExpr(expr string) bool {
 // NormalizeComparisonOperators coalesces strict comparison operators (=== and !==) to loose operators (== and !=).
 // This is needed because the underlying expr evaluator supports == and != but not === and !==.
 func NormalizeComparisonOperators(expr string) string {
+	// operators inside string literals are text
+	masked := MaskQuoted(expr)
 	result := make([]byte, 0, len(expr))
 	for i := 0; i < len(expr); i++ {
-		if i+3 <= len(expr) && expr[i:i+3] == "===" {
+		if masked[i] != expr[i] {
+			result = append(result, expr[i])
+		} else if i+3 <= len(expr) && expr[i:i+3] == "===" {
 			result = append(result, '=', '=')
 			i += 2
 		} else if i+3 <= len(expr) && expr[i:i+3] == "!==" {
